@@ -149,7 +149,10 @@ def mutate(rng, data, kind, others):
     depth = rng.choice(DEPTHS)
     if kind == "grl":
         bomb = rng.choice([b"(" * depth + b"1" + b")" * depth, b"!(" * depth + b"true" + b")" * depth, b"F" + b"[0]" * depth, b"F" + b".A" * depth,
-                           b"F.G(" * depth + b")" * depth, b"1" + b" + 1" * depth, b"(" * depth, b"/*" * depth, b"\"" + b"\\\"" * depth])
+                           b"F.G(" * depth + b")" * depth, b"1" + b" + 1" * depth, b"(" * depth, b"/*" * depth, b"\"" + b"\\\"" * depth,
+                           # selectors chained on a call result: short enough not to count as a "deep or long expression",
+                           # and exponential while a selector atom wrote its receiver twice into its snapshot (fixed: F20)
+                           b"F.G()" + b"[0]" * 18, b"G()" + b"[1]" * 17 + b".X"])
     else:
         bomb = rng.choice([b"[" * depth + b"]" * depth, b"{\"plus\":[1," * depth + b"1" + b"]}" * depth, b"{\"a\":" * depth + b"1" + b"}" * depth,
                            b"[" * depth, b"{\"and\":[{\"eq\":[1,1]}," * min(depth, 2000) + b"{\"eq\":[1,1]}" + b"]}" * min(depth, 2000), b"\"" + b"\\u0041" * depth + b"\""])
